@@ -38,6 +38,9 @@ class Check(PropertyCheck):
 
     def generate(self, rng, n, tier):
         for i in range(n):
+            if i % 20 == 13:
+                yield Scenario(["new", f"mark selfunsub {rng.randint(0, 10**6)}"], {"accepted": 0})
+                continue
             if i % 20 == 12:
                 yield Scenario(["new", f"mark raiser {rng.randint(0, 10**6)}"], {"accepted": 0})
                 continue
@@ -231,6 +234,9 @@ class Check(PropertyCheck):
         res = []
         if line.startswith("mark cogsingleton"):
             return self.cog_singleton_oracle(int(line.split()[2]))
+        if line.startswith("mark selfunsub"):
+            import oracles as _o
+            return _o.self_unsub_episode(int(line.split()[2]))["C10"]
         if line.startswith("mark raiser"):
             import oracles
             return oracles.raiser_episode(int(line.split()[2]))["C10"]
